@@ -4,7 +4,7 @@ PROP = {
     "bin": "c17",
     "coq_targets": ["theories/Flow/C17Check"],
     "n": {"quick": 480, "thorough": 12000},
-    "theorems": [],
+    "theorems": ["spo_sound", "spo_unknown", "spo_completes"],
     "rule": "random IL functions over the stack pointer of one of the seven architectures (1-6 blocks, <=4 instructions each): "
             "push/pop-like `sp = sp -/+ c`, `c + sp`, nested `(sp + c) - 4`, sp-relative stores/loads, `fp = sp`, `sp = fp`, loads into sp, "
             "and-masking, `sp = const`, other non-affine updates, temporaries, intrinsics; chains, diamonds with unbalanced arms, loops, "
